@@ -2716,6 +2716,17 @@ class Deb822FileElement(Deb822Element):
                 raise ValueError("Paragraph is already a part of this file")
             raise ValueError("Paragraph is already part of another Deb822File")
 
+        if tail_element and not tail_element.convert_to_text().endswith("\n"):
+            # The last line of the file is not terminated.  Complete it first; otherwise the
+            # separating newline below would merely terminate that line and the new
+            # paragraph would be merged into whatever was at the end of the file.
+            if isinstance(tail_element, Deb822ParagraphElement):
+                *_, last_kvpair = tail_element.iter_parts()
+                cast('Deb822KeyValuePairElement', last_kvpair)\
+                    .value_element.add_final_newline_if_missing()
+            else:
+                self._token_and_elements.append(self._set_parent(Deb822WhitespaceToken('\n')))
+
         # We need a separating newline if there not a whitespace token at the end of the file.
         # Note the special case where the file ends on a comment; here we insert a whitespace too
         # to be sure.  Otherwise we would have to check that there is an empty line before that
